@@ -121,6 +121,10 @@ def propagate_function(f, ref_names):
                 aliased = any(isinstance(n, ast.Assign) and isinstance(n.value, ast.Name) and n.value.id == v for n in ast.walk(f))
                 if mutated or (len(loads) != 1 and aliased):
                     continue
+                # building the object once and reading it several times is not the same text as building it several times: a built
+                # value with more than one use stays a local (only subscript reads of a constant index count as "the same element")
+                if len(loads) != 1 and any(isinstance(x, ast.Call) for x in ast.walk(e)):
+                    continue
                 # a generator expression is consumed by its first use
                 if isinstance(e, ast.GeneratorExp) and len(loads) != 1:
                     continue
